@@ -109,6 +109,16 @@ pub fn big() -> IfaceSpec {
     IfaceSpec { name: "big".into(), decls, std_cmds: true, err_cmds: true, queue_cap: 4, full_n: false }
 }
 
+/// Interfaces with exactly one declaration (with and without the standard commands).
+pub fn singles() -> Vec<IfaceSpec> {
+    let mut v = Vec::new();
+    for (k, (cmd, std_cmds, err_cmds)) in [("ONLY:[ONE]?", false, false), ("SYSTem:ERRor:CLEar", true, true), ("SYSTem:VERSion:X?", false, true), ("*TST?", true, false), ("S", false, false)].iter().enumerate() {
+        let query = cmd.ends_with('?');
+        v.push(IfaceSpec { name: format!("single{}", k), decls: vec![d(cmd, &[], if query { RetTy::U8 } else { RetTy::Unit })], std_cmds: *std_cmds, err_cmds: *err_cmds, queue_cap: 2, full_n: false });
+    }
+    v
+}
+
 /// Parameter zoo: one command and one query per parameter type, mixed signatures.
 pub fn pzoo() -> IfaceSpec {
     use RetTy as R;
@@ -153,7 +163,8 @@ pub fn qdev(cap: usize) -> IfaceSpec {
     }
 }
 
-const POOL: [&str; 53] = [
+const POOL: [&str; 56] = [
+    "CH10", "CH", "ERRor_1",
     "VOLTAGE", "SYSTEM", "TRIGGER", "TEST", "SOURCE",
     "WAVeform", "ZERO", "JKl", "KELVin",
     "CONFiguration", "MULTiplyFloat", "CALibrationData1", "ABCDEFGHIJKLMNo",
@@ -532,7 +543,25 @@ pub fn c14_fixed() -> Vec<C14Pair> {
         p(set("near-collision/optional", &["[A]:B", "B"], false, false), set("near-collision/optional", &["[A]:B", "[A]:C", "B:B", "A:[B]:D"], false, false)),
         p(set("near-collision/std", &["SYSTem:VERSion?"], true, false), set("near-collision/std", &["SYSTem:VERSion", "SYSTem:VERS1?", "SYSTem:ERRor?", "SYST:ERR:NEXT?", "SYST:ERR:COUN?"], true, false)),
         p(set("near-collision/std", &["SYST:ERR?"], false, true), set("near-collision/std", &["SYST:ERR", "SYST:ERR:NEXT", "SYST:ERR:COUN", "SYSTem:VERSion?", "SYST:ERR:[ALL]:X?"], false, true)),
+        // an underscore inside a mnemonic is not a level separator
+        p(set("near-collision/underscore", &["TRIGger:OUTput", "TRIG:OUT"], false, false), set("near-collision/underscore", &["TRIGger:OUTput", "TRIG_OUT"], false, false)),
+        p(set("near-collision/underscore", &["A:B", "A:B"], false, false), set("near-collision/underscore", &["A:B", "A_B", "A:B_", "A_:B", "AB"], false, false)),
+        p(set("near-collision/underscore", &["X_Y:Z?", "X_Y:Z?"], false, false), set("near-collision/underscore", &["X_Y:Z?", "X:Y:Z?", "X:Y_Z?", "XY:Z?"], false, false)),
+        // the all-capitals spelling declared FIRST, the declaration whose short form / omitted node meets it second
+        p(set("short-equals-long/caps-first", &["VOLT", "VOLTage"], false, false), set("short-equals-long/caps-first", &["VOLT", "VOLTSage"], false, false)),
+        p(set("short-equals-long/caps-first", &["FREQ:MODE", "FREQuency:MODE"], false, false), set("short-equals-long/caps-first", &["FREQ:MODE", "FREQuency:MODE?"], false, false)),
+        p(set("short-and-omitted/caps-first", &["FREQ:MODE", "[SOURce]:FREQuency:MODE"], false, false), set("short-and-omitted/caps-first", &["FREQ:MODE", "[SOURce]:FREQuency:MOD"], false, false)),
+        p(set("short-and-omitted/caps-first", &["VOLT?", "[SOURce]:VOLTage:[DC]?"], false, false), set("short-and-omitted/caps-first", &["VOLT?", "[SOURce]:VOLTage:[DC]"], false, false)),
+        p(set("case-only/caps-first", &["VOLTAGE", "VOLTage"], false, false), set("case-only/caps-first", &["VOLTAGES", "VOLTage"], false, false)),
     ]
+    .into_iter()
+    .flat_map(|pair| {
+        // every set also with its declarations in the opposite order (what is declared first must not matter)
+        let rev = |s: &C14Set, class: &'static str| C14Set { class, decls: s.decls.iter().rev().cloned().collect(), std_cmds: s.std_cmds, err_cmds: s.err_cmds };
+        let r = C14Pair { ambiguous: rev(&pair.ambiguous, "reversed-order"), twin: rev(&pair.twin, "reversed-order") };
+        vec![pair, r]
+    })
+    .collect()
 }
 
 /// Derives an ambiguous set from a random collision-free one, and a twin.
